@@ -13,7 +13,7 @@ import warnings
 import numpy as np
 
 from symx import core, mpmodel
-from harness.common import patch, sandbox_root
+from harness.common import patch, sandbox_root, install_step_h5
 
 import cell_type_mapper.diff_exp.markers as MK
 import cell_type_mapper.utils.csc_to_csr_parallel as PAR
@@ -37,6 +37,7 @@ def setup(case, mode):
             patch(m, 'print_timing', lambda **k: None)
     patch(MK, 'multiprocessing', mpmodel.multiprocessing)
     patch(PAR, 'multiprocessing', mpmodel.multiprocessing)
+    install_step_h5(MK, PAR, PV, PVM)
     patch(MK, 'print', lambda *a, **k: None)
     patch(MK, 'print_timing', lambda **k: None)
     patch(PAR, 'print', lambda *a, **k: None)
@@ -58,12 +59,14 @@ def cells_of(leaf, n):
     return np.array(rows)
 
 
-def build_stats(path, sizes):
+def build_stats(path, sizes, klass=None):
     import h5py
     leaves = sorted(LEAVES)
     data = {'hierarchy': ['class', 'cluster'],
-            'class': {'A': [lf for lf in LEAVES if CLASS[lf] == 'A'],
-                      'B': [lf for lf in LEAVES if CLASS[lf] == 'B']},
+            'class': {'A': [lf for lf in LEAVES
+                            if (klass or CLASS)[lf] == 'A'],
+                      'B': [lf for lf in LEAVES
+                            if (klass or CLASS)[lf] == 'B']},
             'cluster': {lf: [] for lf in LEAVES}}
     tree = TaxonomyTree(data=data)
     ng = len(GENES)
@@ -163,6 +166,70 @@ def oracle_valid(prof, a, b, exact=True, p_th=0.01):
     return out
 
 
+PRIOR = {}
+PRIOR_SIZES = {'c0': 1, 'c1': 3, 'c2': 2, 'c3': 3, 'c4': 1}
+
+
+def prior_products():
+    """products of an earlier successful run on different statistics
+    (marker file and p-value mask), built once per job; returned as
+    bytes"""
+    if PRIOR:
+        return PRIOR
+    root = os.path.join(sandbox_root(), 'refm_prior')
+    shutil.rmtree(root, ignore_errors=True)
+    os.makedirs(os.path.join(root, 'scratch'))
+    stats = os.path.join(root, 'precomputed_stats.h5')
+    tree, _ = build_stats(stats, PRIOR_SIZES)
+    saved = getattr(core.CUR, '_mp_epoch', 0)
+    mpmodel.SCHED.reset(K=0)
+    import cell_type_mapper.diff_exp.p_value_mask as PV
+    out = os.path.join(root, 'reference_markers.h5')
+    mask = os.path.join(root, 'mask.h5')
+    MK.find_markers_for_all_taxonomy_pairs(
+        stats, tree, out, n_processors=1,
+        tmp_dir=os.path.join(root, 'scratch'), max_gb=1)
+    import h5py
+    with h5py.File(out, 'a') as f:
+        f.create_dataset('metadata', data=json.dumps(
+            {'precomputed_path': stats}).encode('utf-8'))
+    mpmodel.SCHED.reset(K=0)
+    PV.create_p_value_mask_file(stats, mask, n_processors=1,
+                                tmp_dir=os.path.join(root, 'scratch'),
+                                n_per=8)
+    if core.CUR is not None:
+        core.CUR._mp_epoch = saved
+    PRIOR['markers'] = open(out, 'rb').read()
+    PRIOR['mask'] = open(mask, 'rb').read()
+    shutil.rmtree(root, ignore_errors=True)
+    return PRIOR
+
+
+def plant(path, kind, which):
+    """what an earlier run left at `path`"""
+    if kind == 'earlier_product':
+        with open(path, 'wb') as f:
+            f.write(prior_products()[which])
+    elif kind == 'garbage':
+        with open(path, 'wb') as f:
+            f.write(b'left behind by a run that died while writing')
+
+
+PRIOR_KINDS = ['nothing', 'earlier_product', 'garbage']
+
+
+def marker_file_complete(path):
+    """would a later stage (query-marker selection) accept this file?"""
+    import h5py
+    try:
+        read_markers(path)
+        with h5py.File(path, 'r') as f:
+            json.loads(f['metadata'][()].decode('utf-8'))['precomputed_path']
+        return True
+    except Exception:
+        return False
+
+
 def run_stage(ctx, case, faults=False):
     root = os.path.join(sandbox_root(), 'refm')
     shutil.rmtree(root, ignore_errors=True)
@@ -188,11 +255,19 @@ def run_stage(ctx, case, faults=False):
 
     route = case.get('route', 'direct')
     res['route'] = route
+    res['prior'] = 'nothing'
+    if case.get('history'):
+        # files an earlier run into the same output directory left
+        res['prior'] = PRIOR_KINDS[ctx.choice('left_at_output', 3)]
+        plant(out, res['prior'], 'markers')
+        if route == 'mask':
+            res['prior_mask'] = PRIOR_KINDS[ctx.choice('left_at_mask', 3)]
+            plant(out + '.p_value_mask.h5', res['prior_mask'], 'mask')
 
     def go(path, nproc, faults_on):
         mpmodel.SCHED.reset(K=case.get('K', 0), faults=faults_on,
                             fault_modes=case.get('fault_modes'),
-                            fault_steps=1)
+                            fault_steps=case.get('fault_steps', 1))
         try:
             if route == 'direct':
                 MK.find_markers_for_all_taxonomy_pairs(
@@ -220,11 +295,63 @@ def run_stage(ctx, case, faults=False):
     res['raised'] = go(out, nproc, faults)
     res['outcome'] = dict(mpmodel.SCHED.outcome)
     res['nproc'] = nproc
-    if not faults and res['raised'] is None and nproc > 1:
+    if not faults and res['raised'] is None and (
+            nproc > 1 or res['prior'] != 'nothing'
+            or res.get('prior_mask', 'nothing') != 'nothing'):
         ref = os.path.join(root, 'out', 'reference_markers_1worker.h5')
         res['raised1'] = go(ref, 1, False)
         res['ref'] = ref
     return res
+
+
+CLI_DEFAULTS = dict(
+    drop_level=None, max_gb=1, query_path=None, n_valid=30, p_th=0.01,
+    q1_th=0.5, q1_min_th=0.1, qdiff_th=0.7, qdiff_min_th=0.1,
+    log2_fold_th=1.0, log2_fold_min_th=0.8, exact_penetrance=True,
+    cloud_safe=False, input_json=None, output_json=None,
+    log_level='ERROR')
+
+
+def run_cli(ctx, case, faults=True):
+    """the reference-marker command line runner (ReferenceMarkerRunner.run
+    with a fully specified argument dict; argschema parsing itself is not
+    part of the claim) into an output directory that may hold the product
+    of an earlier run"""
+    import cell_type_mapper.cli.reference_markers as CLI
+    patch(CLI, 'print', lambda *a, **k: None)
+    root = os.path.join(sandbox_root(), 'refcli')
+    shutil.rmtree(root, ignore_errors=True)
+    for d in ('scratch', 'out', 'in'):
+        os.makedirs(os.path.join(root, d))
+    sizes = {lf: 3 for lf in LEAVES}
+    stats = os.path.join(root, 'in', 'precomputed_stats.h5')
+    tree, prof = build_stats(stats, sizes)
+    out = os.path.join(root, 'out', 'reference_markers.h5')
+    prior = PRIOR_KINDS[ctx.choice('left_at_output', 3)]
+    plant(out, prior, 'markers')
+    before = open(out, 'rb').read() if os.path.exists(out) else None
+    clobber = ctx.flag('clobber')
+    nproc = 1 + ctx.choice('n_processors-1', 3)
+    args = dict(CLI_DEFAULTS)
+    args.update(precomputed_path_list=[stats],
+                output_dir=os.path.join(root, 'out'),
+                tmp_dir=os.path.join(root, 'scratch'),
+                n_processors=nproc, clobber=clobber)
+    runner = CLI.ReferenceMarkerRunner.__new__(CLI.ReferenceMarkerRunner)
+    runner.args = args
+    mpmodel.SCHED.reset(K=case.get('K', 0), faults=faults,
+                        fault_modes=case.get('fault_modes'),
+                        fault_steps=case.get('fault_steps', 1))
+    raised = None
+    try:
+        runner.run()
+    except Exception as e:
+        raised = e
+    return {'sizes': sizes, 'prof': prof, 'exact': True, 'gene_list': None,
+            'root': root, 'out': out, 'tree': tree, 'route': 'direct',
+            'prior': prior, 'clobber': clobber, 'before': before,
+            'raised': raised, 'outcome': dict(mpmodel.SCHED.outcome),
+            'nproc': nproc, 'stats': stats}
 
 
 def check_tables(ctx, res):
@@ -282,6 +409,7 @@ def check_tables(ctx, res):
             m1 = read_markers(res['ref'])
             same = all(np.array_equal(mk[k], m1[k]) for k in mk
                        if k.startswith('sparse'))
-            ctx.check(same, 'tables do not depend on the worker count')
+            ctx.check(same, 'tables do not depend on the worker count nor '
+                      'on what an earlier run left at the output location')
     left = os.listdir(os.path.join(res['root'], 'scratch'))
     ctx.check(left == [], f'scratch directory empty afterwards: {left[:3]}')
